@@ -397,6 +397,9 @@ func genCase(rng *rand.Rand, n int, seed int64, pf Profile) *CaseDesc {
 		}
 	}
 	looseReturns(fin)
+	if len(fin.Out) > 0 && chance(rng, 0.08) {
+		fin.ShadowOK = []int{pick(rng, fin.Out)}
+	}
 	strayConsOpt := func(p *ProvDesc) {
 		// ConsumptionOptional for a type the provider returns and/or for one it does not return
 		if !chance(rng, pf.PConsOpt) {
@@ -447,8 +450,14 @@ func genCase(rng *rand.Rand, n int, seed int64, pf Profile) *CaseDesc {
 			}
 			if chance(rng, 0.15) {
 				t := pick(rng, append(cloneInts(pool), cError))
-				if !contains(pending, t) || chance(rng, 0.1) {
+				if !contains(pending, t) {
 					rets = append(rets, t)
+				} else if chance(rng, 0.25) {
+					// overrides a value returned from below without receiving it: only valid with AllowReturnShadowing
+					rets = append(rets, t)
+					if chance(rng, 0.5) {
+						p.ShadowOK = append(p.ShadowOK, t)
+					}
 				}
 			}
 			if useIface && (chance(rng, 0.35) || (ifaceUp && chance(rng, 0.5))) {
@@ -473,6 +482,9 @@ func genCase(rng *rand.Rand, n int, seed int64, pf Profile) *CaseDesc {
 				p.ConsOpt = []int{p.Out[0]}
 			}
 			strayConsOpt(p)
+			if len(p.Out) > 0 && chance(rng, 0.12) {
+				p.ShadowOK = uniq(append(p.ShadowOK, pick(rng, p.Out)))
+			}
 		}
 		if p.Kind == "inj" && contains(p.Out, cTE) {
 			strayConsOpt(p)
